@@ -4,6 +4,15 @@
 # clean tree and fails with the patch; with the patch the touched packages' existing tests and ./sugardb/ still pass,
 # TestSugarDB_Plugins / MODULE_* excepted) and, if confirmed, store the seed under /verif/seeded/<ID>/.
 export GOFLAGS=-mod=mod GOPROXY=off GOSUMDB=off GOTOOLCHAIN=local
+# leaves <file>: the failing leaf tests (a parent fails whenever a child does), without the known offline/flaky ones
+leaves() { grep -E '^\s*--- FAIL' $1 | sed 's/^\s*--- FAIL: //; s/ (.*//' | sort -u | python3 -c "
+import sys
+n=[l.strip() for l in sys.stdin if l.strip()]
+for x in n:
+    if any(y.startswith(x+'/') for y in n): continue
+    if any(k in x for k in ('Plugins','MODULE','Module','Test_SnapshotRestore')): continue
+    print(x)
+" | head -5; }
 ID=$1; SRC=${2:-/tmp/seedw/$ID/_seed}; WT=/tmp/wt-collect-$ID
 [ -f $SRC/patch.diff ] || { echo "$ID: no patch.diff in $SRC"; exit 2; }
 DEMO=$(ls $SRC/*_test.go 2>/dev/null | head -1)
@@ -24,13 +33,13 @@ rm -f $DIR/zz_seed_demo_test.go
 PKGS=$(git diff --name-only | xargs -n1 dirname | sort -u | grep -v '^sugardb$' | sed 's#^#./#' | tr '\n' ' ')
 go build ./sugardb/ $PKGS > /tmp/cs_$ID.build 2>&1; b=$?
 timeout 1500 go test -vet=off -count=1 $PKGS ./sugardb/ > /tmp/cs_$ID.suite 2>&1
-FAILS=$(grep -E '^\s*--- FAIL' /tmp/cs_$ID.suite | grep -v 'Plugins\|MODULE\|Module\|Test_AdminCommands$\|Test_Standalone$\|Test_SnapshotRestore' | head -5)
+FAILS=$(leaves /tmp/cs_$ID.suite)
 if [ -n "$FAILS" ]; then
   # Test_Standalone/Test_SnapshotRestore waits a fixed 20 ms for a snapshot and fails about every second run on the clean tree too: excluded above. Other timing flakes on a loaded machine (Test_AppendStore): run the failing package once more
   timeout 1500 go test -vet=off -count=1 $PKGS ./sugardb/ > /tmp/cs_$ID.suite2 2>&1
-  FAILS2=$(grep -E '^\s*--- FAIL' /tmp/cs_$ID.suite2 | grep -v 'Plugins\|MODULE\|Module\|Test_AdminCommands$\|Test_Standalone$\|Test_SnapshotRestore' | head -5)
+  FAILS2=$(leaves /tmp/cs_$ID.suite2)
   # only failures that repeat count
-  FAILS=$(comm -12 <(echo "$FAILS" | sed 's/ (.*//' | sort -u) <(echo "$FAILS2" | sed 's/ (.*//' | sort -u))
+  FAILS=$(comm -12 <(echo "$FAILS" | sort -u) <(echo "$FAILS2" | sort -u))
 fi
 cd /; git -C /repo worktree remove --force $WT; rm -rf $WT
 echo "$ID: demo clean exit=$c (want 0) mutated exit=$m (want !=0) build=$b suite failures: ${FAILS:-none}"
@@ -44,7 +53,7 @@ try: m=json.load(open(src))
 except Exception: m={}
 m["property"]=prop
 m["demo_dir"]=d
-m["round"]="fourth seeding round (on /repo %s)"%head
+import os; m["round"]="%s seeding round (on /repo %s)"%(os.environ.get("ROUND","seventh"),head)
 m["confirmed_by_framework_author"]={"ran":["tools/collectseed.sh: fresh scratch worktree of /repo HEAD","git apply patch.diff: applies","go test -run <demo> ./%s/ on the clean tree: PASS"%d,"go test -run <demo> with the patch: FAIL","go build + go test %s ./sugardb/ with the patch: PASS (TestSugarDB_Plugins / MODULE_* excepted: the .so fixtures cannot be built offline and fail on the clean tree too; a failure that does not repeat in a second run is a timing flake)"%pk]}
 json.dump(m,open(dst,'w'),indent=1)
 PY
